@@ -36,9 +36,9 @@ func (*prop) Assumptions() []string {
 }
 func (*prop) MinDistinct(tier string) int64 {
 	if tier == "thorough" {
-		return 2_000_000
+		return 2000000
 	}
-	return 20_000
+	return 20000
 }
 func (*prop) WantsRace(tier string) bool { return true }
 
